@@ -11,7 +11,7 @@ from dateparser.custom_language_detection.language_mapping import map_languages
 from dateparser.date_parser import date_parser
 from dateparser.freshness_date_parser import freshness_date_parser
 from dateparser.languages.loader import LocaleDataLoader
-from dateparser.parser import _parse_absolute, _parse_nospaces
+from dateparser.parser import _check_strict_parsing, _parse_absolute, _parse_nospaces
 from dateparser.timezone_parser import pop_tz_offset_from_string
 from dateparser.utils import (
     _get_missing_parts,
@@ -188,6 +188,10 @@ def parse_with_formats(date_string, date_formats, settings):
             continue
         else:
             missing_parts = _get_missing_parts(date_format)
+            try:
+                _check_strict_parsing(missing_parts, settings)
+            except ValueError:
+                continue
             missing_month = "month" in missing_parts
             missing_day = "day" in missing_parts
             if missing_month and missing_day:
